@@ -82,8 +82,17 @@ class _Builder(object):
             idx = self.draw(st.integers(0, len(users) - 1))
             if self.draw(st.booleans()):
                 idx = max(idx, len(users) - 1 - self.draw(st.integers(0, min(2, len(users) - 1))))
+            aliases = [u for u in users if isinstance(self._decl(u), Typedef) and not self._is_int(u)]
+            if aliases and self.draw(st.integers(0, 3)) == 0:
+                return self.draw(st.sampled_from(aliases))
             return users[idx]
         return self.draw(st.sampled_from(self.numeric_pool()))
+
+    def _decl(self, name):
+        for d in self.decls:
+            if d.name == name:
+                return d
+        return None
 
     def pick_int_type(self):
         if self.intlike and self.draw(st.integers(0, 4)) == 0:
@@ -179,7 +188,15 @@ class _Builder(object):
 
     def add_typedef(self):
         name = self.fresh('T')
-        target = self.pick_type(UNLIMITED)
+        earlier = [d.name for d in self.decls if isinstance(d, Typedef)]
+        comps = [n for n, d in ((d.name, d) for d in self.decls) if isinstance(d, (Struct, Union))]
+        k = self.draw(st.integers(0, 5))
+        if earlier and k < 2:
+            target = self.draw(st.sampled_from(earlier))        # typedef chains (typedef of a typedef of ...)
+        elif comps and k < 4:
+            target = self.draw(st.sampled_from(comps))          # aliases of composites (used as element types)
+        else:
+            target = self.pick_type(UNLIMITED)
         self.decls.append(Typedef(name, target))
         self.vec[name] = self.vec.get(target, False)
         if target in NUMERIC:
@@ -308,7 +325,7 @@ class _Builder(object):
                 self.add_const()
             elif c < 3:
                 self.add_enum()
-            elif c < 5:
+            elif c < 6:
                 self.add_typedef()
             elif c < 8:
                 self.add_union()
